@@ -28,12 +28,29 @@ pub const CHILD_ARG: &str = "--c05-child";
 
 // ------------------------------------------------------------------------------------------------ resolvers
 #[derive(Clone, Copy)]
-enum Mode {
+pub enum Mode {
   NotFound,
   Garbage,
   Fixed,
   Generic,
   WrongType,
+  /// type metadata without schema and without `extends`; schema `true`
+  Minimal,
+  /// type metadata that references its schema by URI (no `extends`); the schema demands `name`
+  SchemaByUri,
+  /// type metadata whose embedded schema is not a schema; schema documents that are not schemas
+  HostileSchema,
+  /// type metadata that extends another type and has NO schema of its own
+  ExtendsOnly,
+}
+pub const ALL_MODES: [Mode; 9] = [Mode::NotFound, Mode::Garbage, Mode::Fixed, Mode::Generic, Mode::WrongType, Mode::Minimal, Mode::SchemaByUri, Mode::HostileSchema, Mode::ExtendsOnly];
+pub struct HostileResolver(pub Mode);
+#[async_trait]
+impl Resolver<Url, serde_json::Value> for HostileResolver {
+  async fn resolve(&self, input: &Url) -> Result<serde_json::Value, identity_credential::sd_jwt_vc::resolver::Error> {
+    let b = answer(self.0, input.as_str())?;
+    serde_json::from_slice(&b).map_err(|e| identity_credential::sd_jwt_vc::resolver::Error::ParsingFailure(e.into()))
+  }
 }
 struct R(Mode);
 fn fixed_answer(input: &str) -> Vec<u8> {
@@ -60,6 +77,24 @@ fn answer(mode: Mode, input: &str) -> Result<Vec<u8>, identity_credential::sd_jw
     Mode::Garbage => Ok(b"\xff{not json".to_vec()),
     Mode::WrongType => Ok(b"[1,2,3]".to_vec()),
     Mode::Fixed => Ok(fixed_answer(input)),
+    Mode::Minimal | Mode::SchemaByUri | Mode::HostileSchema | Mode::ExtendsOnly => {
+      let wants_schema = input.contains("schema");
+      let wants_type = !wants_schema && (input.contains("vct") || input.contains("credential") || input.contains("type"));
+      if !wants_schema && !wants_type {
+        return Ok(fixed_answer(input));
+      }
+      let text: &str = match (mode, wants_schema) {
+        (Mode::Minimal, true) => "true",
+        (Mode::Minimal, false) => r#"{"vct":"https://example.com/c"}"#,
+        (Mode::SchemaByUri, true) => r#"{"type":"object","required":["name"],"properties":{"name":{"type":"string"}}}"#,
+        (Mode::SchemaByUri, false) => crate::json::SEED_TYPE_METADATA_URI,
+        (Mode::HostileSchema, true) => r##"{"type":5,"$ref":"#/nowhere","properties":[],"required":"name","pattern":"(","$schema":7}"##,
+        (Mode::HostileSchema, false) => r##"{"vct":"x","schema":{"$ref":"https://example.com/schema.json","type":[],"items":[{"$ref":"#"}],"minimum":"a"}}"##,
+        (_, true) => r#"{"type":"object"}"#,
+        (_, false) => r#"{"vct":"https://example.com/c","extends":"https://example.com/other-credential-type"}"#,
+      };
+      Ok(text.as_bytes().to_vec())
+    }
   }
 }
 #[async_trait]
@@ -87,7 +122,7 @@ impl Resolver<Url, serde_json::Value> for R {
 pub fn sd_jwt_vc_with_resolvers(vc: &SdJwtVc) {
   use futures::executor::block_on;
   let h = identity_credential::sd_jwt_v2::Sha256Hasher::new();
-  for mode in [Mode::NotFound, Mode::Garbage, Mode::Fixed, Mode::Generic, Mode::WrongType] {
+  for mode in ALL_MODES {
     let r = R(mode);
     st("SdJwtVc::issuer_metadata");
     if let Ok(Some(m)) = block_on(vc.issuer_metadata(&r)) {
@@ -193,7 +228,7 @@ fn e_generate_method(s: &str) -> Out {
     _ => MethodScope::key_agreement(),
   };
   let storage: Storage<JwkMemStore, KeyIdMemstore> = Storage::new(JwkMemStore::new(), KeyIdMemstore::new());
-  let mut doc = CoreDocument::from_json(crate::json::SEED_CORE_DOC).expect("seed doc");
+  let Ok(mut doc) = CoreDocument::from_json(crate::json::SEED_CORE_DOC) else { return "rej:seed-document(not judged)" };
   st("generate_method");
   match block_on(doc.generate_method(&storage, KeyType::new(p[0]), alg, fragment, scope)) {
     Err(_) => "rej",
@@ -217,8 +252,139 @@ fn e_generate_method(s: &str) -> Out {
   }
 }
 
+/// One `Status` given as JSON text: `Status::from_json`, its accessors, and the validator path that consumes it
+/// (`check_status` against the fixture issuer document, `check_status_with_status_list_2021` against the fixture list).
+fn status_json_through_validators(json_text: &str) -> u8 {
+  st("Status::from_json");
+  let Ok(status) = Status::from_json(json_text) else { return 0 };
+  crate::json::status_accessors(&status);
+  let mut level = 1;
+  if RevocationBitmapStatus::try_from(status.clone()).is_ok() || identity_credential::revocation::status_list_2021::StatusList2021Entry::try_from(&status).is_ok() {
+    level = 2;
+  }
+  st("check_status(credential with this status)");
+  let cred = crate::binary::status_credential(status);
+  for sc in [identity_credential::validator::StatusCheck::Strict, identity_credential::validator::StatusCheck::SkipUnsupported] {
+    bb(identity_credential::validator::JwtCredentialValidatorUtils::check_status(&cred, std::slice::from_ref(&*crate::tokens::ISSUER_DOC), sc).is_ok());
+  }
+  if identity_credential::validator::JwtCredentialValidatorUtils::check_status(&cred, std::slice::from_ref(&*crate::tokens::ISSUER_DOC), identity_credential::validator::StatusCheck::Strict).is_ok() {
+    level = 3;
+  }
+  st("check_status_with_status_list_2021(credential with this status)");
+  if identity_credential::validator::JwtCredentialValidatorUtils::check_status_with_status_list_2021(&cred, crate::json::status_list_cred(), identity_credential::validator::StatusCheck::Strict).is_ok() {
+    level = 3;
+  }
+  level
+}
+fn status_label(level: u8) -> Out {
+  match level {
+    0 => "rej:status-json",
+    1 => "accepted:status-only(typed status rejected)",
+    2 => "accepted:typed-status(status check failed)",
+    _ => "accepted:status-check-passed",
+  }
+}
+fn js(s: &str) -> String {
+  serde_json::to_string(s).unwrap_or_else(|_| "\"\"".into())
+}
+/// input = the text of an index: used as the value of the `index` query of the status id AND/OR as the
+/// `revocationBitmapIndex` property (all three combinations with the benign value `5`).
+fn e_rb_status_index(s: &str) -> Out {
+  let mut level = 0;
+  for (q, p) in [(s, s), (s, "5"), ("5", s)] {
+    let id = format!("did:example:123?index={q}#rev");
+    level = level.max(status_json_through_validators(&format!(r#"{{"id":{},"type":"RevocationBitmap2022","revocationBitmapIndex":{}}}"#, js(&id), js(p))));
+  }
+  status_label(level)
+}
+/// input = the whole query of the status id (`did:example:123?<input>#rev`), property `revocationBitmapIndex` = "5"
+fn e_rb_status_query(s: &str) -> Out {
+  let id = format!("did:example:123?{s}#rev");
+  let a = status_json_through_validators(&format!(r#"{{"id":{},"type":"RevocationBitmap2022","revocationBitmapIndex":"5"}}"#, js(&id)));
+  // the same id without the property, and with a non-string property
+  let b = status_json_through_validators(&format!(r#"{{"id":{},"type":"RevocationBitmap2022"}}"#, js(&id)));
+  let c = status_json_through_validators(&format!(r#"{{"id":{},"type":"RevocationBitmap2022","revocationBitmapIndex":5}}"#, js(&id)));
+  status_label(a.max(b).max(c))
+}
+/// input = the text of `statusListIndex`, as a JSON string and (when it is a JSON number token) as a number
+fn e_sl_entry_index(s: &str) -> Out {
+  let mut level = 0;
+  let mut forms = vec![js(s)];
+  if matches!(serde_json::from_str::<serde_json::Value>(s), Ok(serde_json::Value::Number(_))) {
+    forms.push(s.to_string());
+  }
+  for f in forms {
+    let text = format!(r##"{{"id":"https://example.com/credentials/status/3#94567","type":"StatusList2021Entry","statusPurpose":"revocation","statusListIndex":{f},"statusListCredential":"https://example.com/credentials/status/3"}}"##);
+    st("StatusList2021Entry::from_json");
+    if let Ok(e) = identity_credential::revocation::status_list_2021::StatusList2021Entry::from_json(&text) {
+      crate::json::entry_accessors(&e);
+      st("StatusList2021Credential::entry(index of the entry)");
+      bb(crate::json::status_list_cred().entry(e.index()).is_ok());
+    }
+    level = level.max(status_json_through_validators(&text));
+  }
+  status_label(level)
+}
+
+/// input = a DID string: parsed as `CoreDID`, then resolved through an `identity_resolver::Resolver` whose handlers
+/// take other DID types (the resolver converts by re-parsing the string): `did:jwk` -> the built-in handler
+/// (`CoreDocument::expand_did_jwk` of the embedded, externally supplied JWK), `did:iota` -> a handler over
+/// `IotaDID`, `did:example` -> a handler over `CoreDID`, anything else -> no handler.
+fn e_resolver(s: &str) -> Out {
+  use futures::executor::block_on;
+  use identity_did::CoreDID;
+  use identity_iota_core::{IotaDID, IotaDocument};
+  let Ok(did) = CoreDID::parse(s) else { return "rej:did" };
+  let mut r = identity_resolver::SingleThreadedResolver::<CoreDocument>::new();
+  r.attach_did_jwk_handler();
+  r.attach_handler("iota".to_owned(), |d: IotaDID| async move { Ok::<CoreDocument, std::io::Error>(CoreDocument::from(IotaDocument::new_with_id(d))) });
+  r.attach_handler("example".to_owned(), |d: CoreDID| async move {
+    if d.method_id().len() % 2 == 0 {
+      CoreDocument::builder(Default::default()).id(d).build().map_err(|e| std::io::Error::new(std::io::ErrorKind::Other, e.to_string()))
+    } else {
+      Err(std::io::Error::new(std::io::ErrorKind::NotFound, "no such document"))
+    }
+  });
+  // the Send + Sync flavour of the resolver has its own copy of the conversion code
+  {
+    let mut r = identity_resolver::Resolver::<CoreDocument>::new();
+    r.attach_did_jwk_handler();
+    r.attach_handler("iota".to_owned(), |d: IotaDID| async move { Ok::<CoreDocument, std::io::Error>(CoreDocument::from(IotaDocument::new_with_id(d))) });
+    r.attach_handler("example".to_owned(), |d: CoreDID| async move { CoreDocument::builder(Default::default()).id(d).build().map_err(|e| std::io::Error::new(std::io::ErrorKind::Other, e.to_string())) });
+    st("Resolver(Send+Sync)::resolve");
+    bb(block_on(r.resolve(&did)).is_ok());
+    st("Resolver(Send+Sync)::resolve_multiple");
+    bb(block_on(r.resolve_multiple(&[did.clone()])).is_ok());
+  }
+  st("Resolver::resolve");
+  let one = block_on(r.resolve(&did));
+  if let Err(e) = &one {
+    st("Resolver::resolve>error Display/Debug");
+    bb((e.to_string().len(), format!("{e:?}").len(), format!("{:?}", e.error_cause()).len()));
+  }
+  st("Resolver::resolve_multiple");
+  let other = CoreDID::parse("did:example:ab").unwrap();
+  let many = block_on(r.resolve_multiple(&[did.clone(), other, did.clone()]));
+  bb(many.as_ref().map(|m| m.len()).ok());
+  match one {
+    Ok(doc) => {
+      st("Resolver::resolve>document");
+      bb((doc.id().to_string(), doc.to_json().is_ok(), doc.methods(None).len()));
+      for m in doc.methods(None) {
+        crate::json::method_accessors(m);
+      }
+      "accepted:resolved"
+    }
+    Err(_) => "rej:resolution",
+  }
+}
+
 pub fn entries() -> Vec<Entry> {
   vec![
+    es("Resolver::resolve(DID string)", e_resolver),
+    es("Status(RevocationBitmap2022)[index text]", e_rb_status_index),
+    es("Status(RevocationBitmap2022)[id query]", e_rb_status_query),
+    es("Status(StatusList2021Entry)[statusListIndex text]", e_sl_entry_index),
     es("SdJwtVc::parse[table]", e_sd_jwt_vc_parse),
     es("RevocationBitmapStatus::new(DIDUrl)", e_revocation_bitmap_status_new),
     es("Timestamp::from_unix", e_timestamp_from_unix),
@@ -430,6 +596,44 @@ fn h_iota_did_into_string(d: &str) -> Out {
   "accepted"
 }
 
+/// Machinery self-test generators (never part of the judged family): each ends the child in one well-defined way,
+/// and the parent checks that it classifies that end correctly ON THIS MACHINE before it trusts the verdicts of the
+/// real generators (e.g. an environment in which RLIMIT_AS cannot be lowered would make every bomb "return").
+fn h_selftest(d: &str) -> Out {
+  #[inline(never)]
+  fn recurse(n: u64) -> u64 {
+    let pad = [n; 16];
+    if std::hint::black_box(n) == u64::MAX {
+      return 0;
+    }
+    recurse(n + 1) + std::hint::black_box(pad)[3]
+  }
+  match d {
+    "selftest:alloc-above-limit" => {
+      let mut v: Vec<u8> = Vec::with_capacity(std::hint::black_box((AS_LIMIT + (1 << 30)) as usize));
+      v.push(std::hint::black_box(1));
+      bb((v.as_ptr(), v.capacity(), v[0]));
+      "returned-with-an-allocation-above-the-limit"
+    }
+    "selftest:stack" => {
+      bb(recurse(0));
+      "returned-from-unbounded-recursion"
+    }
+    "selftest:killed" => {
+      unsafe { libc::raise(libc::SIGKILL) };
+      "returned-after-SIGKILL"
+    }
+    "selftest:spin" => {
+      let mut x = 0u64;
+      loop {
+        x = std::hint::black_box(x.wrapping_mul(6364136223846793005).wrapping_add(1));
+      }
+    }
+    _ => "selftest-ok",
+  }
+}
+const SELFTEST: &str = "hostile/selftest";
+
 const HOSTILE: &[(&str, HostileFn)] = &[
   ("hostile/StatusList2021::try_from_encoded_str(gzip bomb)", h_status_list_bomb),
   ("hostile/RevocationBitmap::try_from(Service)(zlib bomb)", h_bitmap_bomb),
@@ -438,6 +642,7 @@ const HOSTILE: &[(&str, HostileFn)] = &[
   ("hostile/parsers(long input)", h_long),
   ("hostile/from_json(many members)", h_many),
   ("hostile/IotaDID::into_string", h_iota_did_into_string),
+  (SELFTEST, h_selftest),
 ];
 
 const AS_LIMIT: u64 = 4 << 30; // 4 GiB address space
@@ -445,6 +650,11 @@ const AS_LIMIT: u64 = 4 << 30; // 4 GiB address space
 const CPU_LIMIT_SMALL_S: u64 = 5;
 const CPU_LIMIT_LARGE_S: u64 = 40;
 const WALL_LIMIT_S: u64 = 240;
+/// stack of the thread that runs the subject in the child (= the Linux default for a main thread)
+const CHILD_STACK: usize = 8 << 20;
+/// an allocation failure is attributed to RLIMIT_AS when (address space in use + failed request) comes at least
+/// this close to the limit
+const AS_SLACK: u64 = 256 << 20;
 /// inputs below this size that exhaust the CPU limit are judged as non-termination
 const SMALL_INPUT: usize = 4096;
 
@@ -471,15 +681,36 @@ pub fn child_main(args: &[String]) -> ! {
     std::process::exit(2);
   };
   let d = args[1].clone();
-  crate::st("");
-  match vx::guard(|| f(&d)) {
-    Ok(label) => {
+  let f = *f;
+  // The subject runs on a thread with an EXPLICIT stack (the Linux default of 8 MiB), so that a stack-overflow
+  // verdict does not depend on the `ulimit -s` of the shell that started the check.
+  let worker = std::thread::Builder::new().name("c05-hostile".into()).stack_size(CHILD_STACK).spawn(move || {
+    crate::st("");
+    vx::guard(|| f(&d))
+  });
+  let worker = match worker {
+    Ok(w) => w,
+    Err(e) => {
+      eprintln!("child: cannot spawn the worker thread: {e}");
+      std::process::exit(2);
+    }
+  };
+  match worker.join() {
+    Ok(Ok(label)) => {
       println!("OK {label}");
       std::process::exit(0)
     }
-    Err(p) => {
+    Ok(Err(p)) => {
+      if crate::harness_panic(&p) {
+        eprintln!("child: harness panicked: {} @ {}", p.msg, p.loc);
+        std::process::exit(2);
+      }
       println!("PANIC {}\t{} @ {}", crate::pkey(&p), p.msg, p.loc);
       std::process::exit(3)
+    }
+    Err(_) => {
+      eprintln!("child: worker thread ended abnormally outside the guard");
+      std::process::exit(2);
     }
   }
 }
@@ -488,14 +719,62 @@ enum ChildResult {
   Returned(String),
   Panicked(String, String),
   Aborted(String, String),
+  /// SIGXCPU: the child used up its RLIMIT_CPU (CPU time, not wall time: independent of the load of the machine)
   CpuTimeout,
   WallTimeout,
+  /// ended in a way that the input cannot be blamed for with certainty (killed from outside — OOM killer, operator —,
+  /// allocation failure far below RLIMIT_AS): recorded, never judged
+  NotAttributable(String),
   Machinery(String),
+}
+
+/// `c05-alloc-failure size=<n> vsize=<m>` lines written by the child's allocator (see `DiagAlloc`): the last one
+/// belongs to the allocation that made std abort.
+fn last_alloc_failure(err: &str) -> Option<(u64, u64)> {
+  let l = err.lines().rev().find(|l| l.starts_with("c05-alloc-failure "))?;
+  let mut size = None;
+  let mut vsize = None;
+  for w in l.split_whitespace() {
+    if let Some(v) = w.strip_prefix("size=") {
+      size = v.parse().ok();
+    }
+    if let Some(v) = w.strip_prefix("vsize=") {
+      vsize = v.parse().ok();
+    }
+  }
+  Some((size?, vsize?))
 }
 
 /// Only descriptors that ARE the input (no generator parameter) count as small inputs.
 fn is_small(d: &str) -> bool {
-  d.starts_with("did:") && d.len() <= SMALL_INPUT
+  (d.starts_with("did:") && d.len() <= SMALL_INPUT) || d == "selftest:spin"
+}
+
+/// Runs the self-test children and requires the expected classification of each.
+fn machinery_selftest(ctx: &Ctx) {
+  let mut tests: Vec<(&str, &str)> = vec![("selftest:ok", "returned"), ("selftest:alloc-above-limit", "aborted:allocation-failure"), ("selftest:stack", "aborted:stack-overflow-or-segv"), ("selftest:killed", "not-attributable:killed-from-outside")];
+  if ctx.thorough() {
+    tests.push(("selftest:spin", "cpu-limit"));
+  }
+  let got: Vec<(String, String, String)> = tests
+    .par_iter()
+    .map(|(d, want)| {
+      let r = match run_child(SELFTEST, d) {
+        ChildResult::Returned(l) => format!("returned:{l}"),
+        ChildResult::Panicked(k, _) => format!("panicked:{k}"),
+        ChildResult::Aborted(c, _) => format!("aborted:{c}"),
+        ChildResult::CpuTimeout => "cpu-limit".to_string(),
+        ChildResult::WallTimeout => "wall-limit".to_string(),
+        ChildResult::NotAttributable(w) => format!("not-attributable:{w}"),
+        ChildResult::Machinery(m) => format!("machinery:{m}"),
+      };
+      (d.to_string(), want.to_string(), r)
+    })
+    .collect();
+  for (d, want, r) in &got {
+    ctx.require(r.starts_with(want.as_str()), &format!("hostile-family self-test {d}: the child ended as `{r}`, expected `{want}*` — the abort/limit verdicts of this family cannot be trusted on this machine"));
+  }
+  ctx.part("census: hostile-family machinery self-test", json!({"children": got.iter().map(|(d, _, r)| json!({"generator": d, "classified_as": r})).collect::<Vec<_>>()}));
 }
 fn cpu_limit(d: &str) -> u64 {
   if is_small(d) {
@@ -510,7 +789,7 @@ fn run_child(entry: &str, descriptor: &str) -> ChildResult {
     Ok(e) => e,
     Err(e) => return ChildResult::Machinery(format!("current_exe: {e}")),
   };
-  let mut child = match Command::new(exe).arg(CHILD_ARG).arg(entry).arg(descriptor).arg(cpu_limit(descriptor).to_string()).stdin(Stdio::null()).stdout(Stdio::piped()).stderr(Stdio::piped()).spawn() {
+  let mut child = match Command::new(exe).arg(CHILD_ARG).arg(entry).arg(descriptor).arg(cpu_limit(descriptor).to_string()).env("RUST_BACKTRACE", "0").stdin(Stdio::null()).stdout(Stdio::piped()).stderr(Stdio::piped()).spawn() {
     Ok(c) => c,
     Err(e) => return ChildResult::Machinery(format!("spawn: {e}")),
   };
@@ -548,17 +827,26 @@ fn run_child(entry: &str, descriptor: &str) -> ChildResult {
       ChildResult::Panicked(k.to_string(), m.to_string())
     }
     (Some(2), _) => ChildResult::Machinery(format!("child machinery error: {err_tail}")),
-    (_, Some(sig)) if sig == libc::SIGXCPU || sig == libc::SIGKILL => ChildResult::CpuTimeout,
+    (_, Some(sig)) if sig == libc::SIGXCPU => ChildResult::CpuTimeout,
+    // Nothing in the child raises these: somebody else ended it (kernel OOM killer, operator, container runtime).
+    (_, Some(sig)) if [libc::SIGKILL, libc::SIGTERM, libc::SIGINT, libc::SIGHUP, libc::SIGQUIT, libc::SIGPIPE].contains(&sig) => ChildResult::NotAttributable(format!("killed-from-outside(signal {sig})")),
     (_, Some(sig)) => {
-      let class = if err.contains("memory allocation of") {
-        "allocation-failure"
-      } else if err.contains("stack overflow") || sig == libc::SIGSEGV {
-        "stack-overflow-or-segv"
-      } else {
-        "abort"
-      };
+      let err_tail: String = err.lines().rev().filter(|l| !l.starts_with("c05-alloc-failure ")).take(3).collect::<Vec<_>>().join(" | ");
+      if err.contains("memory allocation of") {
+        // std's `handle_alloc_error`. Judged only when the failure is explained by the address-space limit of the
+        // child, i.e. when the input made the subject ask for (about) more than RLIMIT_AS; an allocation that fails
+        // far below the limit means that the machine itself was out of memory.
+        return match last_alloc_failure(&err) {
+          Some((size, vsize)) if size.saturating_add(vsize).saturating_add(AS_SLACK) >= AS_LIMIT => ChildResult::Aborted(format!("allocation-failure(signal {sig})"), format!("{err_tail} [request {size} B with {vsize} B of address space in use, limit {AS_LIMIT} B]")),
+          Some((size, vsize)) => ChildResult::NotAttributable(format!("allocation-failure-below-the-address-space-limit(request {size} B at {vsize} B in use)")),
+          None => ChildResult::NotAttributable("allocation-failure-without-diagnostics".into()),
+        };
+      }
+      let class = if err.contains("stack overflow") || err.contains("overflowed its stack") || sig == libc::SIGSEGV { "stack-overflow-or-segv" } else { "abort" };
       ChildResult::Aborted(format!("{class}(signal {sig})"), err_tail)
     }
+    // 101 = a panic that escaped on the child's main thread, which runs harness code only
+    (Some(101), _) => ChildResult::Machinery(format!("child main thread panicked: {err_tail}")),
     (Some(c), _) => ChildResult::Aborted(format!("exit-code-{c}"), err_tail),
     (None, None) => ChildResult::Machinery("child ended without status".into()),
   }
@@ -589,6 +877,11 @@ pub fn eval_hostile(ctx: &Ctx, case: &Case) {
       }
     }
     ChildResult::WallTimeout => "wall-limit(not judged)".to_string(),
+    ChildResult::NotAttributable(why) => {
+      eprintln!("[C05] hostile child of {} [{d:.60}]: {why} — recorded, not judged", case.entry);
+      // (the size-dependent details stay out of the label)
+      format!("{}(not judged)", why.split('(').next().unwrap_or("not-attributable"))
+    }
     ChildResult::Machinery(m) => {
       ctx.require(false, &format!("hostile child of {}: {m}", case.entry));
       "machinery".to_string()
@@ -642,7 +935,156 @@ fn source_census() -> vx::Value {
     total += n;
     per_crate.insert(krate.to_string(), json!(n));
   }
-  json!({"total_sites_outside_cfg_test": total, "per_crate": per_crate})
+  // anchored mechanism "crate-level #![forbid(unsafe_code)]": recorded (a mechanism, not part of the statement: not judged)
+  let mut forbid = serde_json::Map::new();
+  for krate in ["identity_core", "identity_did", "identity_document", "identity_verification", "identity_jose", "identity_credential", "identity_iota_core", "identity_storage", "identity_resolver"] {
+    let t = std::fs::read_to_string(format!("/repo/{krate}/src/lib.rs")).unwrap_or_default();
+    forbid.insert(krate.to_string(), json!(t.contains("#![forbid(unsafe_code)]")));
+  }
+  json!({"total_sites_outside_cfg_test": total, "per_crate": per_crate, "crate_level_forbid_unsafe_code(recorded, not judged)": forbid})
+}
+
+// ------------------------------------------------------------------------------------------------ site table
+/// The census of panic-capable sites (unwrap / expect / unreachable! / panic! / indexing / slicing) outside
+/// `#[cfg(test)]` in the anchored crates: (file, code fragment that identifies the site, can externally supplied
+/// data reach it?, which sweep of this check drives it). Fragments instead of line numbers: unrelated edits move
+/// lines. `site_table_drift` compares the table with the tree that is being checked and reports fragments that
+/// disappeared and unwrap-class lines that the table does not know (informational, never judged).
+pub const SITES: &[(&str, &str, &str, &str)] = &[
+  // ---- identity_core
+  ("identity_core/src/common/one_or_many.rs", "Self::Many(_) => unreachable!()", "internal invariant (replace of a matched One); `push` on any deserialised value", "json: Credential::from_json > OneOrMany::push"),
+  ("identity_core/src/common/one_or_many.rs", "other.pop().expect(\"infallible\")", "yes: every one-or-many JSON member (context, type, subject, service type)", "json: all from_json sweeps (arrays of length 0/1/2 by mutation)"),
+  ("identity_core/src/common/one_or_set.rs", "expect(\"infallible OneOrSet new_set\")", "yes: controller sets of documents", "json: CoreDocument/IotaDocument::from_json; IotaDocument::set_controller"),
+  ("identity_core/src/common/one_or_set.rs", "expect(\"OneOrSet::map infallible\")", "yes: CoreDocument::map/try_map over parsed controllers", "json: CoreDocument::try_map; binary: unpack > into_iota_document"),
+  ("identity_core/src/common/one_or_set.rs", "expect(\"OneOrSet::try_map infallible\")", "yes: same", "json: CoreDocument::try_map"),
+  ("identity_core/src/common/one_or_set.rs", "OneOrSetInner::Set(_) => unreachable!()", "internal invariant; `append` on a parsed controller set", "json: CoreDocument::from_json > controller append"),
+  ("identity_core/src/common/timestamp.rs", "expect(\"Timestamp failed to convert system datetime\")", "no: wasm32 clock only (not compiled here)", "-"),
+  ("identity_core/src/common/timestamp.rs", "expect(\"Timestamp incompatible with RFC 3339\")", "yes: every accepted timestamp, checked_add/checked_sub results", "strings: Timestamp::parse/from_json prefix trees + grid; census: from_unix; json: Duration"),
+  // ---- identity_did
+  ("identity_did/src/did_jwk.rs", "expect(\"did:jwk encodes a valid JWK\")", "yes: any accepted did:jwk (parse, serde, TryFrom<CoreDID>)", "strings: DIDJwk::parse/from_json, CoreDID::parse > DIDJwk::try_from"),
+  ("identity_did/src/did_url.rs", "expect(\"a DIDUrl should be a valid Url\")", "yes: Url::from(DIDUrl) for every accepted / joined / mutated DID URL", "strings: DIDUrl::parse/join/set_* > Url::from(DIDUrl)"),
+  ("identity_did/src/did.rs", "bytes[index]", "yes: method-id scan of every DID string", "strings: CoreDID::parse & co. ('%' at every position)"),
+  ("identity_did/src/did_url.rs", "&input[..did_end]", "yes", "strings: DIDUrl::parse (incl. multi-byte symbols)"),
+  ("identity_did/src/did_url.rs", "&relative[..index]", "yes", "strings: DIDUrl::parse/join"),
+  ("identity_did/src/did_url.rs", "&segment[i..]", "yes: percent-escape validation of path/query/fragment", "strings: DIDUrl::parse/join/set_path/set_query/set_fragment"),
+  // ---- identity_jose
+  ("identity_jose/src/jwk/jwk_ext.rs", "_ => unreachable!()", "yes in principle (TryFrom<jsonprooftoken::Jwk> with non-EC parameters; the impl is compiled unconditionally) — its callers live behind `jpt-bbs-plus` (off), and the harness cannot name the type: `jsonprooftoken` is not a dependency of vcheck", "NOT COVERED"),
+  // ---- identity_document
+  ("identity_document/src/document/core_document.rs", "expect(\"unwrapping infallible should be fine\")", "yes: map_unchecked on unpacked documents", "binary: StateMetadataDocument::unpack > into_iota_document; json: StateMetadataDocument::from_json"),
+  // ---- identity_credential
+  ("identity_credential/src/credential/credential.rs", "Url::parse(\"https://www.w3.org/2018/credentials/v1\").unwrap()", "no: constant", "-"),
+  ("identity_credential/src/domain_linkage/domain_linkage_configuration.rs", "did-configuration/v1\").unwrap()", "no: constant", "-"),
+  ("identity_credential/src/credential/linked_domain_service.rs", "expect(\"the len should be 1\")", "yes: LinkedDomainService::new with caller-supplied URL sets", "json: Service::from_json > Linked*Service::new(endpoint urls)"),
+  ("identity_credential/src/credential/linked_domain_service.rs", "unreachable!(\"the service endpoint is never a set", "yes: domains() on a service that passed check_structure", "json: Service::from_json > LinkedDomainService::try_from > domains"),
+  ("identity_credential/src/credential/linked_domain_service.rs", "expect(\"the `origins` property exists", "yes: same", "json: Service::from_json > LinkedDomainService::domains"),
+  ("identity_credential/src/credential/linked_verifiable_presentation_service.rs", "expect(\"element 0 exists\")", "yes: ::new with caller-supplied URL sets", "json: Service::from_json > Linked*Service::new(endpoint urls)"),
+  ("identity_credential/src/credential/linked_verifiable_presentation_service.rs", "unreachable!(\"the service endpoint is never a map", "yes: verifiable_presentation_urls() after try_from / serde", "json: Service::from_json > LinkedVerifiablePresentationService::try_from / from_json"),
+  ("identity_credential/src/credential/revocation_bitmap_status.rs", "expect(\"the string should be non-empty and a valid URL query\")", "yes: RevocationBitmapStatus::new(DIDUrl, index)", "census: RevocationBitmapStatus::new prefix trees; binary: bitmap accessors"),
+  ("identity_credential/src/revocation/status_list_2021/entry.rs", "serde_json::to_value(entry).unwrap()", "yes: Status::from(StatusList2021Entry)", "json: StatusList2021Entry/Status/Credential::from_json; census: statusListIndex texts"),
+  ("identity_credential/src/revocation/status_list_2021/entry.rs", "serde_json::from_value(json_status).unwrap()", "yes: same", "same"),
+  ("identity_credential/src/revocation/status_list_2021/status_list.rs", "StatusList2021::new(MINIMUM_LIST_SIZE).unwrap()", "no: constant", "-"),
+  ("identity_credential/src/revocation/status_list_2021/status_list.rs", "compressor.write_all(&self.0).unwrap()", "yes: into_encoded_str of any decoded list (in-memory writer)", "binary: StatusList2021 gzip streams; strings"),
+  ("identity_credential/src/revocation/status_list_2021/status_list.rs", "compressor.finish().unwrap()", "yes: same", "same"),
+  ("identity_credential/src/revocation/status_list_2021/status_list.rs", "self.0[i] & (0b1000_0000 >> offset)", "yes: get / entry / check_status_with_status_list_2021 with a hostile index", "binary: status_list_accessors; json: StatusList2021Credential; census: statusListIndex texts"),
+  ("identity_credential/src/revocation/status_list_2021/status_list.rs", "self.0[i] |= 0b1000_0000 >> offset", "yes: set / set_entry / update", "binary + json: set, set_credential_status, update"),
+  ("identity_credential/src/revocation/status_list_2021/status_list.rs", "self.0[i] &= !(0b1000_0000 >> offset)", "yes: same", "same"),
+  ("identity_credential/src/revocation/revocation_bitmap_2022/bitmap.rs", "u16::from_le_bytes([data[0], data[1]])", "yes: every decoded endpoint (guarded by len >= 2)", "binary: zlib streams, hand-built roaring streams (0..3 byte inputs)"),
+  ("identity_credential/src/sd_jwt_vc/builder.rs", "serde_json::to_value($claim).unwrap()", "yes: SdJwtVcBuilder::finish with caller-supplied claims", "json: Credential::from_json > SdJwtVcBuilder::finish"),
+  ("identity_credential/src/sd_jwt_vc/builder.rs", "SdJwtBuilder::<Sha256Hasher>::new(json!({})).unwrap()", "no: constant", "-"),
+  ("identity_credential/src/sd_jwt_vc/builder.rs", "expect(\"serialized VC is a JSON object\")", "yes: new_from_credential(parsed credential)", "json: Credential::from_json > SdJwtVcBuilder::new_from_credential"),
+  ("identity_credential/src/sd_jwt_vc/builder.rs", "expect(\"serialized VC has `vc` property\")", "yes: same", "same"),
+  ("identity_credential/src/sd_jwt_vc/builder.rs", "unreachable!(\"`vc` property's value is a JSON object\")", "yes: same", "same"),
+  ("identity_credential/src/sd_jwt_vc/builder.rs", "expect(\"value is a JSON Value\")", "yes: finish", "json: Credential::from_json > SdJwtVcBuilder::finish"),
+  ("identity_credential/src/sd_jwt_vc/claims.rs", "serde_json::to_value(status).unwrap()", "yes: SdJwtClaims::from(SdJwtVcClaims) with a parsed `status`", "tokens/census: SdJwtVc::parse > SdJwtClaims::from(SdJwtVcClaims) (status table)"),
+  ("identity_credential/src/sd_jwt_vc/token.rs", "sd_jwt_str.split_once('~').unwrap()", "yes: verify_signature of any parsed SD-JWT VC", "tokens: SdJwtVc::parse raw spaces + trees; census table"),
+  ("identity_credential/src/sd_jwt_vc/token.rs", "jwk.to_json_value().unwrap().as_object().unwrap()", "yes: validate_key_binding with cnf.jwk", "tokens: KB-JWT table on SD-JWT VC; census table (cnf variants)"),
+  ("identity_credential/src/sd_jwt_vc/token.rs", "expect(\"SD-JWT has a '~'\")", "yes: validate_key_binding", "same"),
+  ("identity_credential/src/sd_jwt_vc/token.rs", "&encoded_sd_jwt[..=last_tilde_idx]", "yes: same", "same"),
+  ("identity_credential/src/sd_jwt_vc/token.rs", "format!(\"{origin}{WELL_KNOWN_VCT}{path}\").parse().unwrap()", "yes: vct_to_url of any URL vct", "strings: Url::parse > vct_to_url; census: iss x vct table"),
+  ("identity_credential/src/sd_jwt_vc/metadata/integrity.rs", "self.0.split_once('-').unwrap()", "yes: alg() of any accepted integrity string", "strings: IntegrityMetadata::parse/from_json"),
+  ("identity_credential/src/sd_jwt_vc/metadata/integrity.rs", "self.0.split('-').nth(1).unwrap()", "yes: digest()", "same"),
+  ("identity_credential/src/sd_jwt_vc/metadata/integrity.rs", "BaseEncoding::decode(self.digest(), Base::Base64).unwrap()", "yes: digest_bytes()", "same"),
+  ("identity_credential/src/sd_jwt_vc/metadata/vc_type.rs", "current_type.schema.as_ref().unwrap()", "yes: validate_credential_with_resolver on parsed / resolved type metadata", "json: sd_jwt_vc metadata::from_json > validate_credential_with_resolver x 9 resolver behaviours; census: SdJwtVc::validate"),
+  ("identity_credential/src/sd_jwt_vc/metadata/vc_type.rs", "unreachable!(\"schema is provided through `schema_uri`", "yes: same", "same"),
+  // ---- identity_iota_core
+  ("identity_iota_core/src/did/iota_did.rs", "Self::parse(did).expect(\"DIDs constructed with new should be valid\")", "yes: IotaDID::new / from_alias_id / placeholder with a NetworkName obtained from serde, from_alias_id with any string (KNOWN FINDING)", "strings: NetworkName::try_from/from_json follow-ups, IotaDID::from_alias_id"),
+  ("identity_iota_core/src/did/iota_did.rs", "expect(\"normalizing a valid CoreDID should be Ok\")", "yes: IotaDID::try_from_core of any CoreDID", "strings: IotaDID::parse/try_from(CoreDID) trees + grid"),
+  ("identity_iota_core/src/did/iota_did.rs", "&tail[1..]", "yes: network_str/tag_str of any accepted IOTA DID", "strings: iota_did_accessors"),
+  ("identity_iota_core/src/did/iota_did.rs", "expect(\"being able to successfully decode the tag", "no: From<&IotaDID> for AliasId is behind feature `client` (off in the harness build: needs iota-sdk)", "-"),
+  ("identity_iota_core/src/document/iota_document.rs", "expect(\"empty IotaDocument constructor failed\")", "yes: IotaDocument::new(network) / new_with_id", "strings: NetworkName follow-ups, IotaDID::parse > IotaDocument::new_with_id"),
+  ("identity_iota_core/src/document/iota_document.rs", "expect(\"controller is checked to be not empty\")", "yes: set_controller", "json: IotaDocument::from_json > set_controller"),
+  ("identity_iota_core/src/state_metadata/document.rs", "CoreDID::parse(\"did:0:0\").unwrap()", "no: constant", "-"),
+  // ---- identity_storage
+  ("identity_storage/src/key_id_storage/method_digest.rs", "bytes[0]", "yes: MethodDigest::unpack (guarded by the length check)", "binary: MethodDigest::unpack lengths 0..=12 x version byte"),
+  ("identity_storage/src/key_id_storage/method_digest.rs", "bytes[1..9]", "yes: same", "same"),
+  ("identity_storage/src/key_storage/ed25519.rs", "jwk.try_okp_params().unwrap()", "yes: JwkMemStore::insert / sign with a hostile JWK", "census: JwkMemStore::insert+sign"),
+  ("identity_storage/src/key_storage/memstore.rs", "expect(\"should only panic if kty == oct\")", "no: `generate` builds the JWK itself", "census: generate_method table (executed)"),
+  ("identity_storage/src/key_storage/bls.rs", "expect(\"kty != oct\")", "no: feature `jpt-bbs-plus` (off in the harness build)", "-"),
+  ("identity_storage/src/key_storage/memstore.rs", "expect(\"jwk is private\")", "no: feature `jpt-bbs-plus` (off in the harness build)", "-"),
+  ("identity_storage/src/storage/timeframe_revocation_ext.rs", "validity_timeframe).unwrap()", "no: feature `jpt-bbs-plus` (off in the harness build)", "-"),
+];
+
+/// Compare `SITES` with the tree under /repo (informational).
+fn site_table_drift() -> vx::Value {
+  let mut missing = Vec::new();
+  for (file, frag, _, _) in SITES {
+    match std::fs::read_to_string(format!("/repo/{file}")) {
+      Ok(t) => {
+        if !t.contains(frag) {
+          missing.push(format!("{file}: {frag}"));
+        }
+      }
+      Err(_) => missing.push(format!("{file}: (file not readable)")),
+    }
+  }
+  // unwrap-class lines outside cfg(test) that no fragment of the table matches
+  let mut unknown = Vec::new();
+  fn walk(dir: &std::path::Path, out: &mut Vec<std::path::PathBuf>) {
+    let Ok(rd) = std::fs::read_dir(dir) else { return };
+    let mut es: Vec<_> = rd.flatten().map(|e| e.path()).collect();
+    es.sort();
+    for p in es {
+      if p.is_dir() {
+        if p.file_name().map(|n| n == "tests" || n == "target").unwrap_or(false) {
+          continue;
+        }
+        walk(&p, out);
+      } else if p.extension().map(|e| e == "rs").unwrap_or(false) {
+        out.push(p);
+      }
+    }
+  }
+  for krate in ["identity_core", "identity_did", "identity_document", "identity_verification", "identity_jose", "identity_credential", "identity_iota_core", "identity_storage", "identity_resolver"] {
+    let mut files = Vec::new();
+    walk(std::path::Path::new(&format!("/repo/{krate}/src")), &mut files);
+    for f in files {
+      let rel = f.to_string_lossy().trim_start_matches("/repo/").to_string();
+      if rel.contains("test_utils") {
+        continue;
+      }
+      let Ok(t) = std::fs::read_to_string(&f) else { continue };
+      let t = t.split("#[cfg(test)]").next().unwrap_or("");
+      let lines: Vec<&str> = t.lines().collect();
+      for (i, line) in lines.iter().enumerate() {
+        let l = line.trim_start();
+        if l.starts_with("//") {
+          continue;
+        }
+        if [".unwrap()", ".expect(", "unreachable!(", "panic!("].iter().any(|p| l.contains(p)) {
+          // a multi-line call chain puts `.expect(` on its own line: compare a window of three lines
+          let window = lines[i.saturating_sub(2)..=i].join("\n") + "\n" + lines.get(i + 1).copied().unwrap_or("");
+          if !SITES.iter().any(|(file, frag, _, _)| *file == rel && (window.contains(frag) || frag.lines().any(|fl| l.contains(fl.trim())))) {
+            unknown.push(format!("{rel}:{}: {}", i + 1, l.chars().take(100).collect::<String>()));
+          }
+        }
+      }
+    }
+  }
+  let reachable = SITES.iter().filter(|s| s.2.starts_with("yes")).count();
+  let uncovered: Vec<_> = SITES.iter().filter(|s| s.3 == "NOT COVERED").map(|s| format!("{}: {}", s.0, s.1)).collect();
+  json!({"sites_in_table": SITES.len(), "reachable_from_external_data": reachable, "reachable_but_not_covered": uncovered,
+         "table_fragments_not_found_in_/repo": missing, "unwrap_class_lines_in_/repo_unknown_to_the_table": unknown,
+         "table": SITES.iter().map(|s| json!({"file": s.0, "site": s.1, "external_data_reaches_it": s.2, "driven_by": s.3})).collect::<Vec<_>>()})
 }
 
 pub fn generate(ctx: &Ctx) {
@@ -682,6 +1124,25 @@ pub fn generate(ctx: &Ctx) {
   // ---------------------------------------------------------------- RevocationBitmapStatus::new over DID URL strings
   let sweeps: Vec<Sweep> = vec![sw("RevocationBitmapStatus::new(DIDUrl)", A_DID, &[("did:m:a", ""), ("did:m:a?", ""), ("did:m:a?index=", ""), ("did:m:a#", "")], (3, 4))];
   crate::strings::run_sweeps(ctx, "census: RevocationBitmapStatus::new prefix trees", &sweeps);
+
+  // ---------------------------------------------------------------- status index texts (the index of a credential status is external data)
+  const A_IDX: &[&str] = &["0", "1", "5", "9", "4", "-", "+", "&", "=", "%", "i", ".", " ", "é", "e", "x"];
+  let sweeps: Vec<Sweep> = vec![
+    sw("Status(RevocationBitmap2022)[index text]", A_IDX, &[("", ""), ("429496729", ""), ("42949672", "")], (3, 4)),
+    sw("Status(RevocationBitmap2022)[id query]", A_IDX, &[("", ""), ("index=", ""), ("index=5&index=", ""), ("x=1&index", ""), ("index=%3", "")], (3, 4)),
+    sw("Status(StatusList2021Entry)[statusListIndex text]", A_IDX, &[("", ""), ("13107", ""), ("1844674407370955161", ""), ("-", "")], (3, 4)),
+  ];
+  crate::strings::run_sweeps(ctx, "census: credential-status index texts through Status::from_json and the status checks", &sweeps);
+
+  // ---------------------------------------------------------------- identity_resolver: DID strings through handlers of other DID types
+  let jwk_did = format!("did:jwk:{}", identity_jose::jwu::encode_b64(crate::json::SEED_JWK_OKP.as_bytes()));
+  let jwk_did_ec = format!("did:jwk:{}", identity_jose::jwu::encode_b64(crate::json::SEED_JWK_EC_K.as_bytes()));
+  const A_B64: &[&str] = &["A", "e", "y", "J", "9", "-", "_", "=", ".", "z", " ", "é"];
+  let sweeps: Vec<Sweep> = vec![
+    sw("Resolver::resolve(DID string)", A_DID, &[("did:example:", ""), ("did:iota:", ""), ("did:jwk:", ""), ("did:", ":x"), (&format!("did:iota:smr:{}", crate::strings::VALID_TAG), "")], (3, 4)),
+    sw("Resolver::resolve(DID string)", A_B64, &[(&jwk_did, ""), (&jwk_did[..jwk_did.len() - 3], ""), (&jwk_did_ec, ""), ("did:jwk:eyJ", "")], (3, 4)),
+  ];
+  crate::strings::run_sweeps(ctx, "census: identity_resolver with handlers over DIDJwk / IotaDID / CoreDID", &sweeps);
 
   // ---------------------------------------------------------------- Timestamp::from_unix boundaries
   let mut cases: Vec<(&'static str, String)> = Vec::new();
@@ -741,6 +1202,7 @@ pub fn generate(ctx: &Ctx) {
   crate::strings::run_list(ctx, "census: generate_method/create_jws argument table", &cases, json!({"product": "key type(6) x alg(5) x fragment(17) x scope(2)"}));
 
   ctx.part("census: source sites", source_census());
+  ctx.part("census: site table", site_table_drift());
 
   // ---------------------------------------------------------------- hostile sizes (child process, last)
   let q = ctx.quick();
@@ -759,7 +1221,8 @@ pub fn generate(ctx: &Ctx) {
     }
   }
   for what in ["did", "did-colons", "did-pct", "did-url-query", "timestamp-fraction", "url", "b64", "base58", "network", "integrity", "jws", "jws-dots", "sd-jwt-tildes", "sd-jwt-disclosures"] {
-    let cap = if what == "base58" || what == "sd-jwt-disclosures" { 100_000 } else { usize::MAX };
+    // (base-58 decoding is quadratic: 100 000 symbols cost ~10 s of CPU, which alone was the critical path of the quick tier)
+    let cap = if what == "base58" { ctx.by_tier(30_000, 100_000) } else if what == "sd-jwt-disclosures" { 100_000 } else { usize::MAX };
     let heavy = ["did", "jws", "url", "timestamp-fraction"].contains(&what);
     for n in sizes(if heavy { &[100_000, 4_000_000] } else { &[100_000] }, if heavy { &[100_000, 4_000_000, 64_000_000] } else { &[100_000, 1_000_000] }) {
       hostile.push((HOSTILE[4].0, format!("long:{what}:{}", n.min(cap))));
@@ -779,7 +1242,10 @@ pub fn generate(ctx: &Ctx) {
   let cases: Vec<Case> = hostile.iter().filter(|(e, _)| crate::only(e)).map(|(e, d)| Case { entry: e.to_string(), s: Some(d.clone()), b: None }).collect();
   // children are single-threaded and memory-hungry: at most 4 at a time
   let pool = vx::rayon::ThreadPoolBuilder::new().num_threads(4).build().expect("pool");
-  pool.install(|| cases.par_iter().for_each(|c| eval_hostile(ctx, c)));
+  pool.install(|| {
+    machinery_selftest(ctx);
+    cases.par_iter().for_each(|c| eval_hostile(ctx, c))
+  });
   ctx.add_states(cases.len() as u64);
   ctx.add_transitions(cases.len() as u64);
   ctx.add_traces(cases.len() as u64);
@@ -788,7 +1254,7 @@ pub fn generate(ctx: &Ctx) {
   }
   ctx.part("census: hostile sizes (child process)", json!({"cases": cases.len(), "rlimit_as_bytes": AS_LIMIT, "rlimit_cpu_s_small_inputs": CPU_LIMIT_SMALL_S, "rlimit_cpu_s_large_inputs": CPU_LIMIT_LARGE_S, "wall_limit_s": WALL_LIMIT_S, "generators": HOSTILE.iter().map(|h| h.0).collect::<Vec<_>>()}));
   ctx.bound("hostile_rlimit_as", AS_LIMIT);
-  ctx.assume("hostile family: the child is this same binary; RLIMIT_AS = 4 GiB, RLIMIT_CPU = 5 s for inputs below 4 KiB and 40 s otherwise; an abort (allocation failure, stack overflow, SIGSEGV) is a violation; exhausting the CPU limit is a violation only when the input is smaller than 4 KiB (non-termination), otherwise it is recorded and not judged");
+  ctx.assume("hostile family: the child is this same binary, the subject runs on a thread with an explicit 8 MiB stack; RLIMIT_AS = 4 GiB, RLIMIT_CPU = 5 s for inputs below 4 KiB and 40 s otherwise. Judged: an unwind; a stack overflow / SIGSEGV / abort(); an allocation failure that is explained by RLIMIT_AS (failed request + address space in use >= limit - 256 MiB, as reported by the child's allocator); SIGXCPU (CPU time, not wall time) on an input smaller than 4 KiB (non-termination). Recorded and never judged: SIGXCPU on a large input, the wall limit, an allocation failure below the limit (machine out of memory), SIGKILL/SIGTERM/... from outside (OOM killer)");
   let _ = Local::default();
   let _ = In::S("");
 }
